@@ -63,6 +63,19 @@ def build(tier, seed):
             return VALID(v)
         return all(x[0] >= 1 and x[1] >= 1 for x in v)
 
+    CANON = z3.Function("canonical_sc", z3.SeqSort(SCs), z3.BoolSort())     # adjacent entries have different shot counts (snoc-defined)
+
+    def canon_def(s, e):
+        return [CANON(z3.Empty(s.sort())),
+                CANON(z3.Concat(s, z3.Unit(e))) == z3.And(CANON(s), z3.Or(z3.Length(s) == 0, sh_s(s[z3.Length(s) - 1]) != sh_s(e)))]
+
+    def canon_out(v):
+        if isinstance(v, SeqV):
+            return CANON(v.term)
+        if isinstance(v, z3.ExprRef):
+            return CANON(v)
+        return all(a_[0] != b_[0] for a_, b_ in zip(list(v), list(v)[1:]))
+
     VALID_P = z3.Function("valid_pairs", z3.SeqSort(PairS), z3.BoolSort())
 
     def validp_def(s, e):
@@ -235,6 +248,29 @@ def build(tier, seed):
                                               valid_out(nw.self.shot_vector), slen(nw.self.shot_vector) >= 1),
                  axioms=post_axioms,
                  loops={0: LoopSpec(inv, types={"res": SeqT(SC)}, axioms=inv_axioms)})]))
+
+        # the produced vector is CANONICAL (adjacent entries differ): separate cases with the strengthened invariant
+        def inv_c(v, inv=inv):
+            res = st(v.res)
+            return And(inv(v), CANON(res), Or(z3.Length(res) == 0, sh_s(res[z3.Length(res) - 1]) != S._t(v.current_shots)))
+
+        def inv_axioms_c(v, inv_axioms=inv_axioms):
+            res = st(v.res)
+            out = inv_axioms(v) + [CANON(z3.Empty(res.sort()))]
+            sn = split_snoc(res)
+            if sn is not None:
+                out += canon_def(sn[0], sn[1]) + [z3.Concat(sn[0], z3.Unit(sn[1]))[z3.Length(sn[0])] == sn[1]]
+            return out
+
+        def post_axioms_c(o, r, nw, loc, post_axioms=post_axioms):
+            res = st(loc.res)
+            e_last = mks(S._t(loc.current_shots), S._t(loc.current_copies))
+            return post_axioms(o, r, nw, loc) + canon_def(res, e_last) + [CANON(z3.Empty(res.sort()))]
+        contracts.append(FnContract(w, "Shots.__all_tuple_init__", [
+            Case(f"shots:seq-of-{label}/canonical-form", {"self": RecT("Shots"), "shots": SeqT(elemT)},
+                 requires=lambda a: And(slen(a.shots) >= 1, valid_seq(a.shots), Not(a.self._frozen)),
+                 ensures=lambda o, r, nw: And(canon_out(nw.self.shot_vector), valid_out(nw.self.shot_vector)),
+                 axioms=post_axioms_c, loops={0: LoopSpec(inv_c, types={"res": SeqT(SC)}, axioms=inv_axioms_c)})]))
 
     # ---- iteration: yields exactly expand(shot_vector) -------------------------------------------------------------------
     def iter_outer(v):
@@ -599,16 +635,41 @@ def build(tier, seed):
 
     def mul_post_ax(o, r, nw):
         sv = o.self.shot_vector.term
-        return [z3.Extract(sv, 0, z3.Length(sv)) == sv]
+        return [z3.Extract(sv, 0, z3.Length(sv)) == sv, scaled_expansion(sv, o.scalar)]
 
     def mul_ghost(ctx, a):
         sv = a.self.shot_vector.term
+        link_valid(ctx, a.self.shot_vector)
         ctx.assume(z3.Extract(sv, 0, z3.Length(sv)) == sv)
         F, OK, kk = kparts(a.scalar)
         ctx.assume(z3.And(F(z3.Empty(sv.sort()), kk) == z3.Empty(sv.sort()), OK(z3.Empty(sv.sort()), kk)))
 
+    MAP_R = z3.Function("scaled_executions", IS, z3.RealSort(), IS)          # [int(s*k) for s in per-execution list], snoc-defined
+    MAP_I = z3.Function("scaled_executions_int", IS, z3.IntSort(), IS)
+
+    def mparts(k):
+        return (MAP_R, k.t) if isinstance(k, FloatV) else (MAP_I, S._t(k))
+
+    def map_defs(s, y, k):
+        M, kk = mparts(k)
+        return [M(z3.Empty(IS), kk) == z3.Empty(IS), M(z3.Concat(s, z3.Unit(y)), kk) == z3.Concat(M(s, kk), z3.Unit(trunc_mul(y, k)))]
+
+    def scaled_expansion(sv_term, k):
+        """conclusion of the induction lemma expand-of-scaled: expanding the scaled vector == scaling every execution of the expansion"""
+        F, OK, kk = kparts(k)
+        M, _ = mparts(k)
+        return z3.Implies(VALID(sv_term), EXP_S(F(sv_term, kk)) == M(EXP_S(sv_term), kk))
+
+    def scaled_executions(o):
+        sv, k = o.self.shot_vector, o.scalar
+        if isinstance(sv, SeqV):
+            M, kk = mparts(k)
+            return M(EXP_S(sv.term), kk)
+        return [trunc_mul(x, k) for x in expand(sv)]
+
     def mul_post(o, r, nw):
         return And(seq_eq(expand(r.shot_vector), expand_sc_of(scaled_vec(o.self.shot_vector, o.scalar))),
+                   seq_eq(expand(r.shot_vector), scaled_executions(o)),                  # the per-execution list [int(s*k) ...]
                    r.total_shots == total(expand_sc_of(scaled_vec(o.self.shot_vector, o.scalar))))
     for lab, kt in (("int", Int), ("float", Float)):
         contracts.append(FnContract(w2, "Shots.__mul__", [
@@ -641,7 +702,8 @@ def build(tier, seed):
     for lab, kt in (("int", Int), ("float", Float)):
         contracts.append(FnContract(w3, "Shots.__rmul__", [
             Case(f"finite[any length]*{lab}", {"self": FiniteShots, "scalar": kt}, requires=lambda a: wf(a.self),
-                 native_call=lambda mod, a: a["scalar"] * a["self"],
+                 native_call=lambda mod, a: a["scalar"] * a["self"], ghost=lambda ctx, a: link_valid(ctx, a.self.shot_vector),
+                 axioms=lambda o, r, nw: [scaled_expansion(o.self.shot_vector.term, o.scalar)],
                  ensures=mul_post, raises={"ValueError": lambda o: Not(all_scaled_ok(o))}, must_return=all_scaled_ok),
             Case(f"analytic*{lab}", {"self": AnalyticShots, "scalar": kt}, ensures=lambda o, r, nw: r is nw.self)]))
 
@@ -837,6 +899,17 @@ def build(tier, seed):
         Case("finite==analytic", {"self": FiniteShots, "other": AnalyticShots}, requires=lambda a: wf(a.self),
              ensures=lambda o, r, nw: r == False),  # noqa: E712
         Case("finite==int", {"self": FiniteShots, "other": Int}, requires=lambda a: wf(a.self), ensures=lambda o, r, nw: r == False)]))  # noqa: E712
+    def unique_canonical(A_, B_):
+        """conclusion of the induction lemma canonical-unique (induction on the length of A_, for every B_)"""
+        return z3.Implies(z3.And(CANON(A_), VALID(A_), CANON(B_), VALID(B_), EXP_S(A_) == EXP_S(B_)), A_ == B_)
+    contracts.append(FnContract(w, "Shots.__eq__", [
+        # for canonical valid vectors (what every constructor path produces: __all_tuple_init__/canonical-form, the one-entry vector of an int)
+        # equality of the objects is equality of their expansions
+        Case("finite==finite/equal-expansion", {"self": FiniteShots, "other": FiniteShots},
+             requires=lambda a: And(wf(a.self), wf(a.other), canon_out(a.self.shot_vector), canon_out(a.other.shot_vector),
+                                    valid_out(a.self.shot_vector), valid_out(a.other.shot_vector)),
+             ensures=lambda o, r, nw: r == seq_eq(expand(o.self.shot_vector), expand(o.other.shot_vector)),
+             axioms=lambda o, r, nw: [unique_canonical(o.self.shot_vector.term, o.other.shot_vector.term)])]))
     contracts.append(FnContract(w, "valid_int", [
         Case("int", {"s": Int}, ensures=lambda o, r, nw: r == (o.s > 0)),
         Case("float", {"s": Float}, ensures=lambda o, r, nw: r == False),  # noqa: E712
@@ -846,11 +919,67 @@ def build(tier, seed):
         Case("triple", {"s": TupleT(Int, Int, Int)}, ensures=lambda o, r, nw: r == False),  # noqa: E712
         Case("int", {"s": Int}, ensures=lambda o, r, nw: r == False)]))  # noqa: E712
 
+    def last_of(E):
+        return E[z3.Length(E) - 1]
+
+    def last_of_expand(s_, el):
+        E = EXP_S(z3.Concat(s_, z3.Unit(el)))
+        return z3.Implies(cp_s(el) >= 1, z3.And(z3.Length(E) >= 1, last_of(E) == sh_s(el)))
+
+    def rep_cancel(P_, Q_, x_, n_, m_):
+        return z3.Implies(z3.And(n_ >= 0, n_ <= m_, z3.Concat(P_, rep(x_, n_)) == z3.Concat(Q_, rep(x_, m_))), P_ == z3.Concat(Q_, rep(x_, m_ - n_)))
+
+    def last_concat_rep(Q_, x_, k_):
+        E = z3.Concat(Q_, rep(x_, k_))
+        return z3.Implies(k_ >= 1, z3.And(z3.Length(E) >= 1, last_of(E) == x_))
+
+    def unique_step_facts(A1, e1, B1, f1):
+        """hypotheses of the induction step: the induction hypothesis at (A1, B1), the defining equations, instances of the helper lemmas,
+        and the decomposition of a non-empty sequence into prefix ++ [last] (fresh names for the parts)"""
+        SSs = z3.SeqSort(SCs)
+        A2, B2 = z3.Consts("uA2 uB2", SSs)
+        e3, f3 = z3.Consts("ue3 uf3", SCs)
+        return [unique_canonical(A1, B1)] + exp_def(EXP_S, A1, e1, (sh_s, cp_s)) + exp_def(EXP_S, B1, f1, (sh_s, cp_s)) + valid_def(A1, e1) + valid_def(B1, f1) \
+            + canon_def(A1, e1) + canon_def(B1, f1) + [
+                last_of_expand(A1, e1), last_of_expand(B1, f1),
+                rep_cancel(EXP_S(A1), EXP_S(B1), sh_s(e1), cp_s(e1), cp_s(f1)), rep_cancel(EXP_S(B1), EXP_S(A1), sh_s(e1), cp_s(f1), cp_s(e1)),
+                last_concat_rep(EXP_S(B1), sh_s(e1), cp_s(f1) - cp_s(e1)), last_concat_rep(EXP_S(A1), sh_s(e1), cp_s(e1) - cp_s(f1)),
+                z3.Implies(z3.Length(A1) >= 1, z3.And(A1 == z3.Concat(A2, z3.Unit(e3)), e3 == A1[z3.Length(A1) - 1])),
+                z3.Implies(z3.Length(A1) == 0, A1 == z3.Empty(SSs)),
+                z3.Implies(z3.Length(B1) >= 1, z3.And(B1 == z3.Concat(B2, z3.Unit(f3)), f3 == B1[z3.Length(B1) - 1])),
+                z3.Implies(z3.Length(B1) == 0, B1 == z3.Empty(SSs)),
+                last_of_expand(A2, e3), last_of_expand(B2, f3)] + valid_def(A2, e3) + valid_def(B2, f3) + exp_def(EXP_S, A2, e3, (sh_s, cp_s)) \
+            + exp_def(EXP_S, B2, f3, (sh_s, cp_s))
+
+    def scaling_lemmas(k):
+        tag = "real" if isinstance(k, FloatV) else "int"
+        F, OK, kk = kparts(k)
+        M, _ = mparts(k)
+        x_, n_, y_ = z3.Ints("lx ln ly")
+        A_, B_ = z3.Consts("LA LB", IS)
+        S_ = z3.Const("LS", z3.SeqSort(SCs))
+        e_ = z3.Const("le", SCs)
+        map_rep = lambda xx, nn: z3.Implies(nn >= 0, M(rep(xx, nn), kk) == rep(trunc_mul(xx, k), nn))
+        map_cat = lambda a_, b_: M(z3.Concat(a_, b_), kk) == z3.Concat(M(a_, kk), M(b_, kk))
+        return [
+            (f"map-rep[{tag}]/base", [x_], map_rep(x_, z3.IntVal(0)), rep_def(x_, z3.IntVal(0)) + rep_def(trunc_mul(x_, k), z3.IntVal(0)) + map_defs(A_, y_, k)),
+            (f"map-rep[{tag}]/step", [x_, n_], map_rep(x_, n_ + 1),
+             [n_ >= 0, map_rep(x_, n_)] + rep_def(x_, n_ + 1) + rep_def(trunc_mul(x_, k), n_ + 1) + map_defs(rep(x_, n_), x_, k)),
+            (f"map-concat[{tag}]/base", [], map_cat(A_, z3.Empty(IS)), map_defs(A_, y_, k)),
+            (f"map-concat[{tag}]/step", [y_], map_cat(A_, z3.Concat(B_, z3.Unit(y_))), [map_cat(A_, B_)] + map_defs(z3.Concat(A_, B_), y_, k) + map_defs(B_, y_, k)),
+            (f"expand-of-scaled[{tag}]/base", [], scaled_expansion(z3.Empty(z3.SeqSort(SCs)), k),
+             scaled_defs(S_, e_, k) + exp_def(EXP_S, S_, e_, (sh_s, cp_s)) + map_defs(A_, y_, k)),
+            (f"expand-of-scaled[{tag}]/step", [], scaled_expansion(z3.Concat(S_, z3.Unit(e_)), k),
+             [scaled_expansion(S_, k), map_rep(sh_s(e_), cp_s(e_)), map_cat(EXP_S(S_), rep(sh_s(e_), cp_s(e_)))] + scaled_defs(S_, e_, k) + valid_def(S_, e_)
+             + exp_def(EXP_S, S_, e_, (sh_s, cp_s)) + exp_def(EXP_S, F(S_, kk), mks(trunc_mul(sh_s(e_), k), cp_s(e_)), (sh_s, cp_s))),
+        ]
+
     # ---- lemmas: induction proofs of the derived laws --------------------------------------------------------------------------
     x, a, b, y = z3.Ints("x a b y")
     A, B = z3.Consts("A B", IS)
     Sa, Sb = z3.Consts("Sa Sb", z3.SeqSort(SCs))
     e = z3.Const("e", SCs)
+    e2 = z3.Const("e2", SCs)
     Pa = z3.Const("Pa", z3.SeqSort(PairS))
     pe = z3.Const("pe", PairS)
     lems = [
@@ -891,6 +1020,15 @@ def build(tier, seed):
          copies_def(Sa, e) + exp_def(EXP_S, Sa, e, (sh_s, cp_s))),
         ("copies-len/step", [], copies_len(z3.Concat(Sa, z3.Unit(e))),
          [copies_len(Sa), len_rep(sh_s(e), cp_s(e))] + copies_def(Sa, e) + exp_def(EXP_S, Sa, e, (sh_s, cp_s)) + valid_def(Sa, e)),
+        # scaling commutes with expansion, for an int scalar ki and a real scalar kr (three inductions each: over n, over B, over s)
+    ] + [lm for kv in (z3.Int("ki"), FloatV(z3.Real("kr"))) for lm in scaling_lemmas(kv)] + [
+        # canonical valid vectors are determined by their expansion: helper facts, then induction on len(A) (for all B)
+        ("canonical-unique/last-of-expand", [], last_of_expand(Sa, e), exp_def(EXP_S, Sa, e, (sh_s, cp_s)) + rep_def(sh_s(e), cp_s(e))),
+        ("canonical-unique/rep-cancel", [x, a, b], rep_cancel(A, B, x, a, b), [rep_add(x, b - a, a)]),
+        ("canonical-unique/last-of-concat-rep", [x, a], last_concat_rep(A, x, a), rep_def(x, a)),
+        ("canonical-unique/base", [], z3.Implies(z3.And(VALID(z3.Concat(Sb, z3.Unit(e))), EXP_S(z3.Empty(z3.SeqSort(SCs))) == EXP_S(z3.Concat(Sb, z3.Unit(e)))), z3.BoolVal(False)),
+         exp_def(EXP_S, Sb, e, (sh_s, cp_s)) + valid_def(Sb, e) + [last_of_expand(Sb, e)]),
+        ("canonical-unique/step", [], unique_canonical(z3.Concat(Sa, z3.Unit(e)), z3.Concat(Sb, z3.Unit(e2))), unique_step_facts(Sa, e, Sb, e2)),
         # equal objects have equal hashes: __eq__ (contract: equal shot vectors) and __hash__ (contract: a function of the shot vector)
         ("eq-implies-equal-hash", [], z3.Implies(Sa == Sb, HASH(Sa) == HASH(Sb)), []),
         ("seq/nth-of-snoc", [a], z3.And(z3.Implies(z3.And(a >= 0, a < z3.Length(Sa)), z3.Concat(Sa, z3.Unit(e))[a] == Sa[a]),
@@ -919,8 +1057,12 @@ def build(tier, seed):
             plan.add(with_standin(ob, fc, cs, tries=600, budget_s=25) if fc.world is not w else ob)
     for nm, vs, goal, assm in lems:
         plan.add(lemma("C44", nm, vs, goal, assumptions=assm))
-    plan.size_bounds = ["Shots.__mul__: shot vectors with 1, 2 or 3 entries (all values of shots, copies and of the scalar); "
-                        "longer vectors are not covered"]
-    plan.unverified = ["Shots.__init__ on mixed int/pair sequences of symbolic length", "__add__/__mul__/num_copies/__eq__/__hash__ (in progress)",
-                       "abstract (traced) shot values"]
+    plan.size_bounds = ["Shots.__mul__/finite[1..3 entries]: kept as a second, quantifier-free derivation next to the proof for vectors of any length"]
+    plan.assumed_contracts = ["hash(tuple) is a function of the tuple's value (uninterpreted HASH)"]
+    plan.trusted_base += ["validity / canonical form / scaling / expansion are snoc-defined spec functions; their elementwise readings and the laws used "
+                          "(elementwise <=> VALID, copies == len(expand), expansion of the scaled vector == scaled expansion, canonical vectors are determined by "
+                          "their expansion) are proved as explicit induction lemmas (base + step obligations)"]
+    plan.unverified = ["abstract (traced) shot values", "Shots.__hash__ is specified as a function of the shot vector (what the code computes): an edit that hashes "
+                       "another function of the value (e.g. total_shots) would be reported although equal objects would still hash equally",
+                       "bool values inside shot sequences (bool is an int in python)", "Shots([]) raises IndexError instead of the documented ValueError (F9, noted)"]
     return plan
